@@ -7,6 +7,8 @@ package main
 // which costs pruning but never soundness.
 
 import (
+	"fmt"
+	"strings"
 	"encoding/binary"
 	"hash"
 	"hash/fnv"
@@ -15,8 +17,26 @@ import (
 )
 
 type hasher struct {
-	h   hash.Hash64
-	buf [8]byte
+	h     hash.Hash64
+	buf   [8]byte
+	canon map[int]uint64 // heap object id -> canonical number (order of first visit)
+	queue []int          // objects whose content still has to be hashed
+}
+
+// obj returns the canonical number of a heap object, scheduling its content for hashing
+// on first visit. Unreachable objects never get a number, so garbage and allocation
+// order do not distinguish states.
+func (x *hasher) obj(id int) uint64 {
+	if id == 0 {
+		return 0
+	}
+	if c, ok := x.canon[id]; ok {
+		return c
+	}
+	c := uint64(len(x.canon) + 1)
+	x.canon[id] = c
+	x.queue = append(x.queue, id)
+	return c
 }
 
 func (x *hasher) u64(v uint64) {
@@ -52,7 +72,7 @@ func (e *Engine) hashValue(x *hasher, v Value) {
 		x.u64(uint64(t.id))
 	case Ptr:
 		x.u64(3)
-		x.u64(uint64(t.obj))
+		x.u64(x.obj(t.obj))
 		x.u64(uint64(len(t.path)))
 		for _, p := range t.path {
 			x.u64(uint64(p))
@@ -62,7 +82,7 @@ func (e *Engine) hashValue(x *hasher, v Value) {
 		}
 	case SliceV:
 		x.u64(4)
-		x.u64(uint64(t.obj))
+		x.u64(x.obj(t.obj))
 		x.u64(uint64(t.off.id))
 		x.u64(uint64(t.len.id))
 		x.u64(uint64(t.cap.id))
@@ -110,10 +130,10 @@ func (e *Engine) hashValue(x *hasher, v Value) {
 		}
 	case MapV:
 		x.u64(10)
-		x.u64(uint64(t.obj))
+		x.u64(x.obj(t.obj))
 	case ChanV:
 		x.u64(11)
-		x.u64(uint64(t.obj))
+		x.u64(x.obj(t.obj))
 	case TupleV:
 		x.u64(12)
 		x.u64(uint64(len(t)))
@@ -173,18 +193,31 @@ func (e *Engine) typeID(t interface{ String() string }) uint64 {
 	return id
 }
 
+// canonKey rewrites a pointer key ("obj.path...") with the canonical object number.
+func (x *hasher) canonKey(k string) string {
+	i := 0
+	for i < len(k) && k[i] >= '0' && k[i] <= '9' {
+		i++
+	}
+	if i == 0 {
+		return k
+	}
+	id := 0
+	for _, c := range k[:i] {
+		id = id*10 + int(c-'0')
+	}
+	return fmt.Sprintf("#%d%s", x.obj(id), k[i:])
+}
+
 func (e *Engine) hashState(st *State) uint64 {
-	x := &hasher{h: fnv.New64a()}
+	x := &hasher{h: fnv.New64a(), canon: map[int]uint64{}}
 	x.u64(uint64(st.cur))
 	x.u64(uint64(int64(st.budget)))
 	// path condition as the sequence of term ids
 	for q := st.pc; q != nil; q = q.parent {
 		x.u64(uint64(q.t.id))
 	}
-	x.u64(uint64(len(st.heap)))
-	for _, v := range st.heap {
-		e.hashValue(x, v)
-	}
+	// roots: thread stacks
 	x.u64(uint64(len(st.threads)))
 	for _, th := range st.threads {
 		flags := uint64(0)
@@ -202,7 +235,7 @@ func (e *Engine) hashState(st *State) uint64 {
 		}
 		x.u64(flags)
 		x.u64(uint64(th.condPhase))
-		x.str(th.waitCond)
+		x.str(x.canonKey(th.waitCond))
 		if th.wake != nil {
 			x.u64(uint64(th.wake.caseIdx) + 1)
 			e.hashValue(x, th.wake.val)
@@ -231,20 +264,68 @@ func (e *Engine) hashState(st *State) uint64 {
 			}
 		}
 	}
-	// side tables kept in names (wait-group counters, choice counters, fresh-name counters)
+	// roots: globals (in a stable order)
+	type gl struct {
+		name string
+		id   int
+	}
+	var gls []gl
+	for g, id := range e.globals {
+		gls = append(gls, gl{g.String(), id})
+	}
+	for g, id := range st.globals {
+		gls = append(gls, gl{g.String(), id})
+	}
+	sort.Slice(gls, func(i, j int) bool { return gls[i].name < gls[j].name })
+	for _, g := range gls {
+		x.str(g.name)
+		x.u64(x.obj(g.id))
+	}
+	// side tables kept in names (wait-group counters keyed by pointer, choice / fresh-name counters)
 	ks := make([]string, 0, len(st.names))
 	for k := range st.names {
 		ks = append(ks, k)
 	}
 	sort.Strings(ks)
+	var side []string
 	for _, k := range ks {
+		if strings.HasPrefix(k, "$wg:") {
+			if st.names[k] != 0 {
+				side = append(side, "$wg:"+x.canonKey(k[4:])+fmt.Sprintf("=%d", st.names[k]))
+			}
+			continue
+		}
+		if k == "$choice" {
+			continue // only names future fresh choice variables
+		}
+		side = append(side, fmt.Sprintf("%s=%d", k, st.names[k]))
+	}
+	sort.Strings(side)
+	for _, k := range side {
 		x.str(k)
-		x.u64(uint64(st.names[k]))
 	}
 	tg := append([]string(nil), st.tags...)
 	sort.Strings(tg)
 	for _, t := range tg {
 		x.str(t)
+	}
+	if len(st.shared) > 0 {
+		var sh []uint64
+		for id := range st.shared {
+			sh = append(sh, x.obj(id))
+		}
+		sort.Slice(sh, func(i, j int) bool { return sh[i] < sh[j] })
+		for _, v := range sh {
+			x.u64(v)
+		}
+	}
+	// reachable heap, in canonical order
+	for i := 0; i < len(x.queue); i++ {
+		id := x.queue[i]
+		x.u64(0xfeed)
+		if id < len(st.heap) {
+			e.hashValue(x, st.heap[id])
+		}
 	}
 	return x.h.Sum64()
 }
